@@ -112,6 +112,12 @@ CHECKS["C19"] = {
     "text": "roundedCounter: base in {0,7,8} x 2-3 threads x 1-2 Inc + a reader, every interleaving with <=3 (4) preemptions, no reduction, history linearizable w.r.t. 'n++; read=ceil8(n)' and final value = ceil8(total); metrics log lines and rounded prometheus counters after n in {0,1,7,8,9,16,17} events of 7 kinds; binCount(n) for all n <= 2^20; unique-address figures for all poll sequences <=2 (3) over 3 addresses x 5 types x 2 NATs; journal: chunkings of sets of size 0..64 into <=3 overlapping chunks x all windows on chunk edges +-1 ns (exact), 10^3 and 10^5 addresses (within 2 %), no address text in the file.",
     "design_ref": "§3 C19", "note": SCHED_NOTE + " Linearizability is checked by brute force over the recorded call/return history instead of porcupine (histories have <= 8 operations).",
 }
+CHECKS["C20"] = {
+    "script": "c20.py", "category": "model_checking",
+    "technique": "the SCHED harnesses of the other properties rebuilt with -race and explored by the controlled scheduler (DPOR + sleep sets) in race mode: Go's happens-before detector with the scheduler's own hand-offs hidden (RaceDisable brackets, norace engine)",
+    "text": "Broker herds (2 proxies x 2 clients at timeout boundaries, all entry points), the metrics ticker firing while requests are in flight, the rounded counter, RedialPacketConn with failing carriers, QueuePacketConn users, Peers/connectLoop/End, server carriers of 2 sessions, the end-to-end composition with faults, proxy slot sessions: every explored execution runs under the race detector; a report counts when both racing accesses are in snowflake (non-harness) source.",
+    "design_ref": "§2.5, §3 C20", "note": SCHED_NOTE + " A race is only reported if both accesses occur in some explored execution (budgeted, not exhaustive for the larger harnesses); third-party stacks are outside the harnesses; one recorded finding (ClientMap sweeper close vs QueuePacketConn.WriteTo send) is listed in known_findings.txt.",
+}
 CHECKS["C08"] = {
     "script": "c08.py", "category": "exploration", "engine": "enum",
     "technique": "bounded-exhaustive enumeration of SDP documents from a grammar on the real stripping code against an independent net/netip classifier",
